@@ -243,6 +243,31 @@ func runC06(r *core.Run) {
 	if r.Thorough() {
 		L, K = 8, 6
 	}
+	// long inputs first: whatever they leave behind (pools, caches) is then exposed to the whole rest of the run
+	longs := []string{
+		"/{" + strings.Repeat("b", 300) + "}",
+		"/{x: " + strings.Repeat("v", 256) + "}",
+		"/{" + strings.Repeat("n", 255) + ": /[0-9]+/}",
+		"/" + strings.Repeat("a", 255) + "/" + strings.Repeat("b", 256) + "/" + strings.Repeat("c", 257),
+		"/" + strings.Repeat("s", 70<<10) + "/after",
+		strings.Repeat("/a", 200000),
+		"/" + strings.Repeat("{", 100000),
+		"/" + strings.Repeat("{x}", 50000),
+		"/{x: /" + strings.Repeat("a", 300000) + "/}",
+		"/" + strings.Repeat("a", 1000000),
+		"/{a: b" + strings.Repeat(", c: d", 20000) + "}",
+		strings.Repeat("/{x: /[0-9]+/}-{y}", 20000),
+		"/" + strings.Repeat("{x: ", 50000),
+		"/" + strings.Repeat("?", 100000),
+		"/{x:" + strings.Repeat(" ", 200000) + "y}",
+	}
+	r.Parallel("long", len(longs), func(w *core.W, _ *rand.Rand, i int) {
+		c := &parseCase{S: core.B(longs[i])}
+		w.Begin("parse", c)
+		w.Count("long-inputs")
+		judgeParse(w, parserOf(w), longs[i], "long", nil)
+	})
+
 	exhaustive := 0
 	// (a1) characters, strings starting with '/'
 	for length := 0; length <= L-1; length++ {
@@ -365,26 +390,6 @@ func runC06(r *core.Run) {
 			}
 		}
 	})
-	// long inputs (few, fixed)
-	longs := []string{
-		strings.Repeat("/a", 200000),
-		"/" + strings.Repeat("{", 100000),
-		"/" + strings.Repeat("{x}", 50000),
-		"/{x: /" + strings.Repeat("a", 300000) + "/}",
-		"/" + strings.Repeat("a", 1000000),
-		"/{a: b" + strings.Repeat(", c: d", 20000) + "}",
-		strings.Repeat("/{x: /[0-9]+/}-{y}", 20000),
-		"/" + strings.Repeat("{x: ", 50000),
-		"/" + strings.Repeat("?", 100000),
-		"/{x:" + strings.Repeat(" ", 200000) + "y}",
-	}
-	r.Parallel("long", len(longs), func(w *core.W, _ *rand.Rand, i int) {
-		c := &parseCase{S: core.B(longs[i])}
-		w.Begin("parse", c)
-		w.Count("long-inputs")
-		judgeParse(w, parserOf(w), longs[i], "long", nil)
-	})
-
 	r.Gate("distinct accepted strings", r.Counter("accepted"), 2000)
 	r.GateCounter("codepoint-insertions", 6*63000)
 	for _, k := range []string{"alt:ident", "alt:{ident}", "alt:parameter-list", "alt:parameter-list>1", "alt:literal-value", "alt:regex-value", "alt:optional", "alt:empty-segment", "accepted-noncanonical-input", "rejected-one-edit-from-accepted", "accepted:exhaustive-chars", "accepted:exhaustive-tokens", "accepted:derivation", "long-inputs", "accepted:codepoint"} {
